@@ -428,13 +428,24 @@ type FuncSpec struct {
 	Pure     bool   // assigns nothing, deterministic in args+heap
 	NoPanic  bool   // generate safety obligations
 	NoInline bool
+	OpaqueCallees bool
 	Inline   bool
+	Gates    []*Gate
+	GatesExempt *Clause // successful returns not guarded by the gates are allowed only under this condition
 	Loops    map[int]*LoopSpec
 	Params   []string // optional explicit parameter names for stdlib (names unknown from export data)
 	File     string
 	Line     int
 	Notes    []string
 	MayPanic bool
+}
+
+// Gate: the error return identified by (a prefix of) its message must be taken whenever Cond holds
+// at the branch that guards it, and that branch must dominate every successful return.
+type Gate struct {
+	Msg    string
+	Cond   *Clause
+	Props  []string
 }
 
 type SpecFunc struct {
@@ -583,6 +594,45 @@ func (db *SpecDB) parseSpecText(text, file, pkgPath string) error {
 				return fail("props outside func")
 			}
 			cur.Props = append(cur.Props, strings.Fields(strings.ReplaceAll(rest, ",", " "))...)
+		case "gates-exempt":
+			if cur == nil {
+				return fail("gates-exempt outside func")
+			}
+			cl, err := parseClause(rest, file, l.line)
+			if err != nil {
+				return err
+			}
+			cur.GatesExempt = cl
+		case "gate":
+			// gate "message": condition
+			if cur == nil {
+				return fail("gate outside func")
+			}
+			r := strings.TrimSpace(rest)
+			var props []string
+			if strings.HasPrefix(r, "[") {
+				if j := strings.Index(r, "]"); j > 0 {
+					for _, p := range strings.Split(r[1:j], ",") {
+						props = append(props, strings.TrimSpace(p))
+					}
+					r = strings.TrimSpace(r[j+1:])
+				}
+			}
+			if !strings.HasPrefix(r, "\"") {
+				return fail("gate \"message\": condition")
+			}
+			j := strings.Index(r[1:], "\"")
+			if j < 0 {
+				return fail("gate: unterminated message")
+			}
+			msg := r[1 : j+1]
+			condSrc := strings.TrimSpace(strings.TrimPrefix(strings.TrimSpace(r[j+2:]), ":"))
+			cl, err := parseClause(condSrc, file, l.line)
+			if err != nil {
+				return err
+			}
+			cl.Props = props
+			cur.Gates = append(cur.Gates, &Gate{Msg: msg, Cond: cl, Props: props})
 		case "ensures-split":
 			// ensures-split <selector> <lo> <hi> label: body
 			// expands to one clause per value lo..hi of the selector plus one for all other values,
@@ -640,6 +690,9 @@ func (db *SpecDB) parseSpecText(text, file, pkgPath string) error {
 			case "needs":
 				cur.Needs = append(cur.Needs, c)
 			case "ensures":
+				if strings.Contains(c.Src, "lastresult(") || strings.Contains(c.Src, "laststr(") {
+					c.NoAssume = true // speaks about the function's own call sites: meaningless to callers
+				}
 				cur.Ensures = append(cur.Ensures, c)
 			case "defines":
 				// a definitional postcondition: it gives a name (an uninterpreted specification
@@ -726,6 +779,9 @@ func (db *SpecDB) parseSpecText(text, file, pkgPath string) error {
 				return fail("maypanic outside func")
 			}
 			cur.MayPanic = true
+		case "opaque-callees":
+			// callees without a contract are not inlined: only their write set is havocked
+			cur.OpaqueCallees = true
 		case "noinline":
 			cur.NoInline = true
 		case "inline":
